@@ -751,7 +751,7 @@ func TestVerifC17(t *testing.T) {
 		return
 	}
 	type phase struct{ nk, nv, depth int }
-	phases := []phase{{7, 2, 5}}
+	phases := []phase{{6, 2, 5}}
 	if r.Thorough() {
 		phases = []phase{{9, 3, 4}, {7, 2, 6}}
 	}
